@@ -601,6 +601,7 @@ theorem fiberBody_paired (g : Val → W) (ge : Nat → W) (rg : R Val) (rge : R 
     | none => simp only [Option.isSome_none, Bool.false_eq_true, if_false]; exact Paired.of_reads (Reads.pure none)
     | some v => simp only [Option.isSome_some, if_true]; exact Paired.map some (hg v (h.hchild v rfl))
   refine Paired.value_eq (Paired.map _ (hg last h.hlast)) ?_
+  unfold fiberMemFlags
   rw [w1, w2, w4]
 
 /-! ### one value -/
